@@ -48,6 +48,7 @@ type Ptr struct {
 	Cell *Cell
 	Root types.Type // type of the object the path starts at
 	Path []int
+	Fam  string // PElem: element-array family of the slice ("" or "#va" for call-argument temporaries)
 }
 
 type Val struct {
@@ -60,6 +61,7 @@ type Val struct {
 	Content            string // cached content term ([]byte only)
 	ContentVer         int
 	FromCell           *Cell // slice of a Go-side array cell (varargs)
+	Fam                string // element-array family ("#va": temporaries built for variadic calls live in their own arrays)
 
 	Elems []*Val // struct fields, tuple elements, array elements
 
@@ -250,7 +252,24 @@ func intModulus(t types.Type) (mod string, signed bool, ok bool) {
 }
 
 func typeName(t types.Type) string {
-	return normName(types.TypeString(t, nil))
+	return normName(types.TypeString(unalias(t), nil))
+}
+
+// unalias resolves type aliases (os.FileInfo = fs.FileInfo, any = interface{}) at the top level and inside
+// pointers and slices, so that contract names do not depend on which spelling the source used.
+func unalias(t types.Type) types.Type {
+	t = types.Unalias(t)
+	switch u := t.(type) {
+	case *types.Pointer:
+		if e := unalias(u.Elem()); e != u.Elem() {
+			return types.NewPointer(e)
+		}
+	case *types.Slice:
+		if e := unalias(u.Elem()); e != u.Elem() {
+			return types.NewSlice(e)
+		}
+	}
+	return t
 }
 
 func normName(s string) string {
